@@ -12,6 +12,8 @@ import multiprocessing
 import os
 import random
 import subprocess
+import contextlib
+import io
 import sys
 import time
 import traceback
@@ -199,8 +201,12 @@ def main(argv=None):
     if len(work) > 1 and not args.max_items and getattr(mod, "EPILOGUE", True):
         n_ep = min(len(items), int(getattr(mod, "EPILOGUE_ITEMS", 4)))
         idx = sorted({int(i * len(items) / n_ep) for i in range(n_ep)}, reverse=True)
+        # ... and with the package logger at DEBUG (what --verbose sets up): the logging level is part of the environment, not
+        # an input of any operation, so the same oracles must hold
+        from .logctx import package_logger_at_debug
         for i in idx:
-            ep = _run_one((i, items[i]))
+            with package_logger_at_debug(), contextlib.redirect_stderr(io.StringIO()):  # (the commands' own log handlers write to stderr)
+                ep = _run_one((i, items[i]))
             ep.counters = {}
             ep.samples = []
             total.merge(ep)
